@@ -4,6 +4,7 @@ parser for the reserved-style configuration.
 Reserved styles: every element delta can paint gets its own 256-colour foreground number, so the
 kind of each span of an output row can be read off its SGR.  No judgement happens here: the parser
 only reports what it sees (tag of the row, visible text, tokens found, byte identity)."""
+import os
 import re
 
 from . import lexer
@@ -115,7 +116,7 @@ def concretise(hist, payload=default_payload, skin=None, k0=0):
     n = len(hist)
     koff = k0
     kd = ""
-    diffu = bool(hist) and (hist[0]["c"] == "du" or hist[0].get("kd") == "dufile")
+    diffu = bool(hist) and (hist[0]["c"] in ("du", "onlyin") or hist[0].get("kd") == "dufile")
     stamp = "\t2024-01-01 00:00:00.000000000 +0000"
     for k0, l in enumerate(hist):
         k = k0 + 1 + koff
@@ -137,6 +138,10 @@ def concretise(hist, payload=default_payload, skin=None, k0=0):
             t = f"  > commit subject tokZ{k}Z"
         elif c in ("subm", "subp"):
             t = ("-" if c == "subm" else "+") + "Subproject commit " + ("%040x" % (0xabcdef0123456789 * (k + 7)))[:40]
+        elif c == "onlyin":
+            # diff -r: a file present on one side only ("Only in <directory>: <name>")
+            bp = bare_path(f, skin)
+            t = f"Only in {'old/' + os.path.dirname(bp) if os.path.dirname(bp) else 'old'}: {os.path.basename(bp)}"
         elif c == "du":
             t = f"diff -ru old/{bare_path(f, skin)} new/{bare_path(g, skin)}"
         elif c == "mmm" and diffu:
